@@ -329,6 +329,48 @@ fn main() {
             println!("returned={}", got.join(","));
             println!("end={}", end);
         }
+        // merge_iter ops(comma) targetU:seq child child ...   child = uk:seq:op:vv/uk:seq:op:vv or -
+        "merge_iter" => {
+            let t = key(a[2]);
+            let mut children = vec![];
+            for c in &a[3..] {
+                let mut ents: Vec<(Vec<u8>, u64, bool, u8)> = vec![];
+                if *c != "-" {
+                    for e in c.split('/') {
+                        let p: Vec<&str> = e.split(':').collect();
+                        ents.push((hex(p[0]), num(p[1]), p[2] == "1", hex(p[3])[0]));
+                    }
+                }
+                children.push(v::VecIter::new_full(&ents));
+            }
+            let mut m = v::VMerge::new(children);
+            let mut out = vec![];
+            for op in a[1].split(',') {
+                match op {
+                    "first" => m.first(),
+                    "last" => m.last(),
+                    "seek" => m.seek_key(&t.0, t.1),
+                    "next" => {
+                        if !m.valid() {
+                            break;
+                        }
+                        m.next()
+                    }
+                    "prev" => {
+                        if !m.valid() {
+                            break;
+                        }
+                        m.prev()
+                    }
+                    _ => panic!("op"),
+                }
+                out.push(match m.current_full() {
+                    Some((k, s, val)) => format!("{}:{}:{:02x}", tohex(&k), s, val),
+                    None => "none".to_string(),
+                });
+            }
+            println!("cursor={}", out.join(","));
+        }
         other => {
             eprintln!("unknown command {}", other);
             std::process::exit(2);
